@@ -1,3 +1,5 @@
+//go:build !vsreal
+
 // Package vs is a cooperative, controlled scheduler onto which the rewritten
 // moss sources route every synchronisation operation (sync.Mutex, sync.Cond,
 // channels, select, go statements, time.Sleep, os.Remove).
